@@ -1,5 +1,4 @@
 /-- translated from the source text of `fieldcompare/io/vtk/_helpers.py: vtk_extents_to_cells_per_direction` -/
--- v0 = extents, v1 = num_expected_extent_entries, v2 = cells, v3 = c
 def c07ExtentsToCellsSrc : Fc.PyLite.Fn := {
   name := "vtk_extents_to_cells_per_direction"
   params := ["v0"]
@@ -16,7 +15,6 @@ def c07ExtentsToCellsSrc : Fc.PyLite.Fn := {
   ] }
 
 /-- translated from the source text of `fieldcompare/io/vtk/_helpers.py: number_of_total_cells_from_cells_per_direction` -/
--- v0 = cells, v1 = c
 def c07TotalCellsSrc : Fc.PyLite.Fn := {
   name := "number_of_total_cells_from_cells_per_direction"
   params := ["v0"]
@@ -25,7 +23,6 @@ def c07TotalCellsSrc : Fc.PyLite.Fn := {
   ] }
 
 /-- translated from the source text of `fieldcompare/io/vtk/_helpers.py: number_of_total_points_from_cells_per_direction` -/
--- v0 = cells, v1 = c
 def c07TotalPointsSrc : Fc.PyLite.Fn := {
   name := "number_of_total_points_from_cells_per_direction"
   params := ["v0"]
